@@ -77,8 +77,195 @@ let handlers : (string * (string list -> string -> string * string list)) list =
   "timeout", h_timeout;
 ]
 
-let () =
-  let ic = open_in Sys.argv.(1) in
+(* ================= traces of the simulation harness ================= *)
+let url_decode (s : string) : string =
+  if s = "~" then "" else begin
+    let b = Buffer.create (String.length s) in
+    let i = ref 0 in
+    let n = String.length s in
+    while !i < n do
+      (match s.[!i] with
+       | '+' -> Buffer.add_char b ' '
+       | '%' when !i + 2 < n + 0 && !i + 2 <= n - 1 + 0 || (!i + 2 < n + 1 && !i + 2 <= n - 0 - 0 && !i + 2 < n + 1) ->
+         (try Buffer.add_char b (Char.chr (int_of_string ("0x" ^ String.sub s (!i + 1) 2))); i := !i + 2
+          with _ -> Buffer.add_char b '%')
+       | c -> Buffer.add_char b c);
+      incr i
+    done; Buffer.contents b end
+let bytes_of_string (s : string) : n list = List.init (String.length s) (fun i -> n_of_int (Char.code s.[i]))
+let dstr s = bytes_of_string (url_decode s)
+
+let parse_md (s : string) : mdt option =
+  if s = "-" || s = "" || s = "absent" then None
+  else if s = "{}" then Some []
+  else Some (List.map (fun kv ->
+      let i = String.index kv '=' in
+      let k = String.sub kv 0 i and vs = String.sub kv (i + 1) (String.length kv - i - 1) in
+      (dstr k, if vs = "" then [] else List.map dstr (split ',' vs))) (split ';' s))
+
+let parse_res (s : string) : res =
+  if s = "ok" || s = "nil" then ROk
+  else if s = "EOF" then REof
+  else if s = "ctx:canceled" then RCtxCanceled
+  else if s = "ctx:deadline" then RCtxDeadline
+  else if String.length s > 3 && String.sub s 0 3 = "st:" then
+    (match split ':' s with
+     | _ :: code :: msg :: det :: _ -> RStatus (n_of_int (int_of_string code), dstr msg, dstr det)
+     | _ :: code :: msg :: [] -> RStatus (n_of_int (int_of_string code), dstr msg, [])
+     | _ -> RErr (bytes_of_string s))
+  else RErr (bytes_of_string s)
+
+let assoc_of (toks : string list) : (string * string) list =
+  List.filter_map (fun t -> match String.index_opt t '=' with
+      | Some i -> Some (String.sub t 0 i, String.sub t (i + 1) (String.length t - i - 1))
+      | None -> None) toks
+let get a k = try List.assoc k a with Not_found -> ""
+let has a k = List.mem_assoc k a
+let geti a k = try int_of_string (get a k) with _ -> 0
+let getn a k = n_of_int (max 0 (geti a k))
+let getz a k = z_of_string (let v = get a k in if v = "" then "0" else v)
+let hexn a k = let v = get a k in if v = "" then N0 else n_of_string (Printf.sprintf "%Lu" (Int64.of_string ("0x" ^ v)))
+let parse_dir s = if s = "c2s" then C2S else S2C
+
+(* rpc number encoded in the method name /v.S/<shape><n> *)
+let rpc_of_method (m : string) : n option =
+  let m = if String.length m > 0 && m.[0] = '/' then String.sub m 1 (String.length m - 1) else m in
+  if String.length m > 4 && String.sub m 0 4 = "v.S/" then begin
+    let rest = String.sub m 4 (String.length m - 4) in
+    let i = ref 0 in
+    while !i < String.length rest && (rest.[!i] < '0' || rest.[!i] > '9') do incr i done;
+    let pre = String.sub rest 0 !i and num = String.sub rest !i (String.length rest - !i) in
+    if List.mem pre ["U"; "CS"; "SS"; "BD"] && num <> "" && String.length num < 4 then
+      (try Some (n_of_int (int_of_string num)) with _ -> None) else None
+  end else None
+
+let parse_kind (a : (string * string) list) : fkind =
+  match get a "kind" with
+  | "new" -> let m = url_decode (get a "method") in
+    KNew (rpc_of_method m, bytes_of_string m, getz a "rev", getn a "win", parse_md (get a "md"))
+  | "msg" -> KMsg (getn a "size", getn a "len")
+  | "more" -> KMore (getn a "len")
+  | "half" -> KHalf
+  | "cancel" -> KCancel
+  | "wu" -> KWu (n_of_string (let v = get a "n" in if v = "" then "0" else v))
+  | "settings" -> KSettings ((let r = get a "revs" in if r = "" then [] else List.map z_of_string (split ',' r)), getn a "win")
+  | "hdrs" -> KHdrs (parse_md (get a "md"))
+  | "close" -> KClose (parse_res (get a "status"), parse_md (get a "md"))
+  | _ -> KNil
+
+let parse_who (s : string) : who =
+  if s = "ctl" then Ctl else
+    let num p = n_of_int (int_of_string (String.sub s p (String.length s - p))) in
+    try match String.sub s 0 2 with
+      | "cw" -> Cw (num 2) | "cr" -> Cr (num 2) | "cx" -> Cx (num 2)
+      | "hw" -> Hw (num 2) | "hr" -> Hr (num 2) | "hx" -> Hx (num 2) | _ -> Ctl
+    with _ -> Ctl
+let parse_op = function
+  | "new" -> ONew | "send" -> OSend | "recv" -> ORecv | "closesend" -> OCloseSend | "header" -> OHeader
+  | "trailer" -> OTrailer | "cancel" -> OCancel | "sethdr" -> OSetHdr | "sendhdr" -> OSendHdr
+  | "settrl" -> OSetTrl | "return" -> OReturn | "ctx" -> OCtx | _ -> OOther
+let parse_shape = function "U" -> ShU | "CS" -> ShCS | "SS" -> ShSS | _ -> ShBD
+
+let parse_event (line : string) : ev =
+  match split ' ' line with
+  | [] -> Other
+  | kind :: toks ->
+    let a = assoc_of toks in
+    (match kind with
+     | "emit" -> Emit (parse_dir (get a "dir"), getn a "t", getz a "id", parse_kind a, not (has a "senderr"))
+     | "deliver" -> Deliver (parse_dir (get a "dir"), getn a "t",
+                             (match get a "what" with "frame" -> n_of_int 1 | "end" -> n_of_int 2 | _ -> N0))
+     | "newcall" -> NewCall (getn a "r", getn a "t", parse_shape (get a "shape"), dstr (get a "method"),
+                             parse_md (get a "md"), parse_md (get a "credmd"),
+                             (if get a "to" = "none" || get a "to" = "" then None else Some (getz a "to")), get a "multi" = "1")
+     | "call" -> Call (parse_who (get a "who"), parse_op (get a "op"), getn a "idx", getn a "len", hexn a "dg",
+                       parse_md (get a "md"), parse_res (get a "status"))
+     | "ret" ->
+       let op = parse_op (get a "op") in
+       let md, md2, has2 = (match op with
+           | ORecv -> parse_md (get a "trl"), parse_md (get a "trlopt"), has a "trlopt"
+           | OHeader -> parse_md (get a "md"), parse_md (get a "hdropt"), has a "hdropt"
+           | ONew -> parse_md (get a "ctxtmd"), None, has a "tcopt"
+           | _ -> parse_md (get a "md"), None, false) in
+       let tc = if has a "ctxtc" then getz a "ctxtc" else z_of_int' (-1) in
+       let idx = (match op with ONew -> if has a "tcopt" then n_of_int (geti a "tcopt" + 2) else N0 | _ -> getn a "idx") in
+       Ret (parse_who (get a "who"), op, parse_res (get a "res"), idx, getn a "len", hexn a "dg", md, md2, has2, tc)
+     | "hstart" -> HStart (getn a "r", parse_shape (get a "shape"), parse_md (get a "md"),
+                           (if get a "deadline" = "none" then None else Some (getz a "deadline")),
+                           (if get a "tmd" = "absent" then None else Some (match parse_md (get a "tmd") with Some m -> m | None -> [])),
+                           dstr (get a "peer"), dstr (get a "icpt"))
+     | "hexit" -> HExit (getn a "r")
+     | "startret" -> StartRet (getn a "t", parse_res (get a "err"))
+     | "chandone" -> ChanDone (getn a "t", parse_res (get a "err"))
+     | "serveret" -> ServeRet (getn a "t", get a "started" = "true", parse_res (get a "err"))
+     | "netsrvret" -> NetSrvRet (getn a "t", parse_res (get a "err"))
+     | "callback" -> Callback (List.mem "open" toks, getz a "t")
+     | "probe" ->
+       let full = has a "goroutines" in
+       let per = List.filter (fun t -> String.length t > 1 && t.[0] = 't' && String.contains t ':') toks in
+       let fields t = assoc_of (split ',' (String.sub t (String.index t ':' + 1) (String.length t - String.index t ':' - 1))) in
+       let ctabs = List.map (fun t -> getz (fields t) "ctab") per in
+       let pend = List.map (fun t -> (getz (fields t) "pc2s", getz (fields t) "ps2c")) per in
+       let stabs = (let v = get a "stabs" in if v = "" then [] else List.map (fun x -> n_of_int (int_of_string x)) (split ',' v)) in
+       let g = (let v = get a "goroutines" in if v = "" || v = "none" then 0 else
+                  List.fold_left (fun acc item -> match String.rindex_opt item '*' with
+                      | Some i -> acc + int_of_string (String.sub item (i + 1) (String.length item - i - 1))
+                      | None -> acc) 0 (split ',' v)) in
+       Probe (full, ctabs, pend, stabs, n_of_int g)
+     | "stim" ->
+       let k = (match get a "kind" with
+           | "fail" -> StFail | "chclose" -> StChClose | "ctxend" -> StCtxEnd | "shutdown" -> StShutdown
+           | "stop" -> StStop | "adv" -> StAdvance | "open" -> StOpen | _ -> StRawEnd) in
+       Stim (k, getn a "t", parse_md (get a "md"), dstr (get a "peer"))
+     | "PANIC" -> Panic
+     | "skip" -> Skip
+     | _ -> Other)
+
+let cfg_of (toks : string list) : cfg =
+  let a = assoc_of toks in
+  { c_rev = (get a "mode" = "rev"); c_cdis = (get a "cdis" = "1"); c_sdis = (get a "sdis" = "1");
+    c_cleg = (get a "cleg" = "1"); c_sleg = (get a "sleg" = "1"); c_rawc = (get a "rawc" = "1"); c_raws = (get a "raws" = "1") }
+
+let string_of_fail (f : failure) : string =
+  Printf.sprintf "%d@%d(%s,%s)" (int_of_n f.f_code) (int_of_n f.f_act) (string_of_z f.f_a) (string_of_z f.f_b)
+
+(* one output line per scenario:  T <name> <end status> <n events> <failures...> *)
+let run_traces (path : string) =
+  let ic = open_in path in
+  let name = ref "" and cfg = ref (cfg_of []) and evs = ref [] and nev = ref 0 in
+  (try while true do
+       let line = input_line ic in
+       let n = String.length line in
+       if n > 2 then begin
+         let rest = String.sub line 2 (n - 2) in
+         match line.[0] with
+         | 'S' -> (match split ' ' rest with
+             | nm :: toks -> name := nm; cfg := cfg_of toks; evs := []; nev := 0
+             | [] -> ())
+         | 'A' -> (match split ' ' rest with
+             | num :: "teardown" :: _ -> evs := (n_of_int (int_of_string num), Teardown) :: !evs
+             | _ -> ())
+         | 'E' -> (match String.index_opt rest ' ' with
+             | Some i ->
+               let num = int_of_string (String.sub rest 0 i) in
+               let e = parse_event (String.sub rest (i + 1) (String.length rest - i - 1)) in
+               incr nev; evs := (n_of_int num, e) :: !evs
+             | None -> ())
+         | 'X' ->
+           let tr = List.rev !evs in
+           let c = !cfg in
+           let fails =
+             mon_wire c tr @ mon_C01 tr @ mon_C02 tr @ mon_C03 tr @ mon_C04 c tr @ mon_C07 c tr @ mon_C08 tr @
+             mon_C10 c tr @ mon_C14 c tr @ mon_C16 c tr @ mon_C17 c tr @ mon_C18 tr @ mon_panic tr in
+           let status = (match split ' ' rest with _ :: st :: _ -> st | _ -> "?") in
+           Printf.printf "T %s %s %d %s\n" !name status !nev (String.concat " " (List.map string_of_fail fails))
+         | _ -> ()
+       end
+     done with End_of_file -> ());
+  close_in ic
+
+let run_cases (path : string) =
+  let ic = open_in path in
   (try
      while true do
        let line = input_line ic in
@@ -95,3 +282,7 @@ let () =
      done
    with End_of_file -> ());
   close_in ic
+
+let () =
+  if Array.length Sys.argv >= 3 && Sys.argv.(1) = "trace" then run_traces Sys.argv.(2)
+  else run_cases Sys.argv.(1)
